@@ -346,6 +346,9 @@ def task(t, res):
             if out is None:
                 continue
             k = state_key(out)
+            if t.get("unmerged"):
+                # no state merging: the history itself is the state (whatever a dataset or its config remembers of the path taken)
+                k = (k, repr(hist + [op]))
             if k not in seen:
                 seen[k] = hist + [op]
                 if len(hist) + 1 < depth:
@@ -428,7 +431,10 @@ def cfg_filters_task(t, res):
 def run(ctx):
     depth = 2 if ctx.quick else 3
     starts = sorted(start_specs())
-    ctx.pmap("mzcheck.checks.c08", "task", [dict(s0=s, depth=depth, tier=ctx.tier) for s in starts])
+    tasks = [dict(s0=s, depth=depth + (1 if ctx.quick else 0), tier=ctx.tier) for s in starts]
+    # the same search without merging states (every filter sequence up to the depth is executed as such) from a few start datasets
+    tasks += [dict(s0=s, depth=2 if ctx.quick else 3, tier=ctx.tier, unmerged=True) for s in starts[:: (4 if ctx.quick else 3)]]
+    ctx.pmap("mzcheck.checks.c08", "task", tasks)
     cfg_tasks = []
     gens = [("gen_dfs", {}, 42), ("gen_dfs", dict(do_forks=False), 7), ("gen_percolation", dict(p=0.5), 3), ("gen_dfs_percolation", dict(p=0.2), 5)]
     ns = 4
@@ -439,9 +445,9 @@ def run(ctx):
     c = ctx.res.counters
     ctx.coverage.update(states=c.get("states", 0), transitions=c.get("transitions", 0),
                         traces_validated_against_impl=c.get("transitions", 0) + ctx.res.evaluations,
-                        depth=depth, start_datasets=starts, per_start=sorted(ctx.res.sets.get("per_start", ())))
+                        depth=depth + (1 if ctx.quick else 0), unmerged_depth=2 if ctx.quick else 3, unmerged_starts=starts[:: (4 if ctx.quick else 3)], start_datasets=starts, per_start=sorted(ctx.res.sets.get("per_start", ())))
     ctx.rule = ("BFS over filter sequences (alphabet: all built-in filters with boundary arguments + custom predicates) from crafted start datasets, "
-                "states de-duplicated by (mazes in order, metadata presence); every transition judged against the reference model; "
+                "states de-duplicated by (mazes in order, metadata presence), and from every 4th (3rd) start dataset again without merging (every sequence up to depth 2 (3) as such); every transition judged against the reference model; "
                 "non-trivial = transitions whose expected result is a proper non-empty subset")
     ctx.exhaustive = True
     ctx.assumptions += ["state key drops the append-only applied_filters log (checked on every transition instead)",
